@@ -7,6 +7,7 @@ import (
 	"sort"
 	"strconv"
 	"strings"
+	"sync"
 	"time"
 
 	"verifharness/internal/px"
@@ -97,6 +98,9 @@ type session struct {
 	got      map[uint][]int // per channel: delivered items
 	newOut   []string
 	faulted  bool // the injected fault has fired
+	curOp    string
+	mu       sync.Mutex
+	badRound bool // a round division returned a non-zero added total != dividend
 	errSeen  bool
 	lastErr  string
 	stopped  bool
@@ -158,8 +162,10 @@ func (s *session) divV2() divider.Divider {
 			s.faulted = true
 			return
 		}
+		before := sumMap(m)
 		base(ps, d, m)
 		s.applyFault(idx, m)
+		s.noteRound(before, sumMap(m), d)
 	}
 }
 
@@ -176,12 +182,50 @@ func (s *session) divV1() p1.Divider {
 			s.faulted = true
 			return m
 		}
+		before := sumMap(m)
 		r := base(ps, d, m)
 		if r == nil {
 			r = m
 		}
 		s.applyFault(idx, r)
+		s.noteRound(before, sumMap(r), d)
 		return r
+	}
+}
+
+func sumMap(m map[uint]uint) uint {
+	t := uint(0)
+	for _, v := range m {
+		t += v
+	}
+	return t
+}
+
+// noteRound records that a division made for a round (inside calcTactic / recalcTactic)
+// returned a non-zero total whose increase differs from the dividend: from then on nothing
+// may be delivered (C15).
+func (s *session) noteRound(before, after, d uint) {
+	switch s.curOp {
+	case "calc", "recalc", "base", "wct":
+		if after != 0 && after-before != d {
+			// everything the discipline has sent so far must be recorded before the flag is set
+			for {
+				s.mu.Lock()
+				n := 0
+				if s.out2 != nil {
+					n = len(s.out2)
+				} else {
+					n = len(s.out1)
+				}
+				if n == 0 {
+					s.badRound = true
+					s.mu.Unlock()
+					break
+				}
+				s.mu.Unlock()
+				time.Sleep(5 * time.Microsecond)
+			}
+		}
 	}
 }
 
@@ -325,6 +369,9 @@ func (s *session) record(p uint, x int) {
 	if s.errSeen {
 		s.fail("C15 item delivered after the discipline reported an error")
 	}
+	if s.badRound {
+		s.fail("C15 item %d (priority %d) delivered after a round division returned a non-zero added total that differs from the dividend", x, p)
+	}
 }
 
 // withDrain runs f while a drainer empties the output channel.
@@ -334,20 +381,33 @@ func (s *session) withDrain(f func()) bool {
 	go func() {
 		defer close(done)
 		for {
+			select {
+			case <-stop:
+				return
+			default:
+			}
+			// take and record under the lock, so that "output empty while holding the lock"
+			// means every completed send has been recorded (see noteRound)
+			s.mu.Lock()
+			got := false
 			if s.out2 != nil {
 				select {
 				case it := <-s.out2:
 					s.record(it.Priority, it.Item)
-				case <-stop:
-					return
+					got = true
+				default:
 				}
 			} else {
 				select {
 				case it := <-s.out1:
 					s.record(it.Priority, it.Item)
-				case <-stop:
-					return
+					got = true
+				default:
 				}
+			}
+			s.mu.Unlock()
+			if !got {
+				time.Sleep(5 * time.Microsecond)
 			}
 		}
 	}()
